@@ -203,7 +203,7 @@ def take(iterable, k):
 
 
 def consume_async(ds, splits_opts: list, attrs, loop_seed: int, k=None,
-                  counters=None):
+                  counters=None, pause: float = 0.0):
     """Run one consumer per (split, opts) concurrently on a SimLoop.
     Returns (list of result lists, loop)."""
     loop = simloop.SimLoop(random.Random(loop_seed))
@@ -225,6 +225,10 @@ def consume_async(ds, splits_opts: list, attrs, loop_seed: int, k=None,
                 loop.trace.append((i, results[i][-1][0]))
                 if k is not None and len(results[i]) >= k:
                     break
+                if pause:
+                    # a consumer that takes (virtual) time per example:
+                    # background producers may run ahead meanwhile
+                    await asyncio.sleep(pause)
         finally:
             await agen.aclose()
 
@@ -327,7 +331,7 @@ def run_reader(env: ReadEnv, ds, iface: str, split: str, opts: dict, k=None,
                seed: int = 0, policy: str = "random", policy_param: int = 0,
                counter=None, choices=None, max_steps: int = 200000,
                abandon_without_close: bool = False,
-               line_prob: float = 0.0) -> ReaderRun:
+               line_prob: float = 0.0, pause: float = 0.0) -> ReaderRun:
     """Consume (the first k elements of) one interface under the simulator.
     Never raises for exceptions coming out of sedpack: they are recorded."""
     attrs = env.st["attrs"]
@@ -352,7 +356,8 @@ def run_reader(env: ReadEnv, ds, iface: str, split: str, opts: dict, k=None,
     try:
         if iface == "async":
             res, loop = consume_async(ds, [(split, opts)], attrs, seed, k=k,
-                                      counters=[counter] if counter else None)
+                                      counters=[counter] if counter else None,
+                                      pause=pause)
             rr.items = res[0]
             rr.loop = loop
         elif iface == "conc":
